@@ -173,6 +173,9 @@ pub struct SoloCfg {
     /// the scripted peer never has more bytes outstanding than the window the endpoint last advertised
     #[serde(default)]
     pub peer_respects_window: bool,
+    /// the scripted peer may selectively acknowledge sequence numbers the endpoint never sent
+    #[serde(default)]
+    pub hostile_sack: bool,
 }
 
 impl SoloCfg {
@@ -196,6 +199,7 @@ impl SoloCfg {
             rtt_ms: 20,
             peer_lens: vec![mss],
             peer_respects_window: false,
+            hostile_sack: false,
         }
     }
     pub fn opts(&self) -> SocketOpts {
@@ -631,6 +635,29 @@ impl World {
                         }
                         Some(m)
                     }
+                };
+                // an honest peer only selectively acknowledges what was really sent (and lies above ack+1)
+                let s = match s {
+                    Some(mut m) if !self.cfg.hostile_sack => {
+                        let hi = self.ep_hi_seq.unwrap_or(a);
+                        let mut any = false;
+                        for i in 0..m.len() * 8 {
+                            if m[i / 8] & (1 << (i % 8)) != 0 {
+                                let sq = a.wrapping_add(2).wrapping_add(i as u16);
+                                let sent = (hi.wrapping_sub(sq) as i16) >= 0 && self.ep_seg_len.contains_key(&sq);
+                                if !sent {
+                                    m[i / 8] &= !(1 << (i % 8));
+                                } else {
+                                    any = true;
+                                }
+                            }
+                        }
+                        if !any {
+                            return None;
+                        }
+                        Some(m)
+                    }
+                    other => other,
                 };
                 let e = self.peer_in_order() as i64;
                 (2, self.peer_seq_of(e), a, self.resolve_wnd(*wnd), s, vec![])
